@@ -243,6 +243,22 @@ CHECKS["C14"] = {
     "note": TB + "; domain restrictions of the statement (non-empty last, no word 'and', no trailing odd backslash)",
 }
 
+CHECKS["C18"] = {
+    "level": "model_checking",
+    "text": "Latex.tla treats the third-party conversion as an uninterpreted, possibly failing function and states scope/types "
+            "(only string field values, NameParts strings and @string values change and stay strings) and containment (a "
+            "failing conversion yields a middleware-error block, never an exception); MC_Latex proves ScopeOK and "
+            "ContainmentOK for every library of up to 2 (quick) / 3 blocks over all slot kinds x every set of failing "
+            "conversions, and every case is replayed on both middlewares with tagging/raising probe converters, in place "
+            "and in copy mode; scope and types are also checked with the real converters under all 18 constructor option "
+            "sets on parsed libraries at three type-states. Clause (iii), Dec(Enc(t)) = t, is a contract on pylatexenc that "
+            "no model can derive: MC_LatexRT only enumerates symbol-class sequences (<= 3 quick / 4) which the harness "
+            "concretises and checks under 4 encoder option sets, plus random longer texts - exploration-level assurance for "
+            "this clause, with one known finding (URLs containing TeX-special characters).",
+    "ref": "6/C18", "technique": "TLA+ spec (Latex.tla) model-checked with TLC + probe-converter replay; round-trip contract by TLC-enumerated conformance",
+    "note": TB + "; pylatexenc's conversion tables are data outside the model; clause (iii) is exploration-level",
+}
+
 NOT_APPLICABLE = {}
 for _e in ENGINES:
     _e["serves_properties"] = sorted(CHECKS)
